@@ -60,15 +60,30 @@ class _Watchdog:
             eng.real_sleep(1.0)
             t0 = self.t0
             if t0 is not None and eng.real_monotonic() - t0 > CASE_WALL_LIMIT:
-                frames = sys._current_frames()
-                where = None
+                # where is it stuck?  Five samples 40 ms apart; per thread the innermost frame that belongs either to the repository or to the
+                # harness (frames of the standard library -- print, logging, queue -- are skipped).  A stall is attributed to the repository
+                # if one thread shows a repository frame there in at least four of the five samples (a thread parked by the scheduler shows
+                # the engine's frame instead).
+                repo_root = os.path.realpath(REPO) + '/j1939'
+                verif_root = os.path.realpath(os.path.join(os.path.dirname(os.path.abspath(__file__)), '..'))
+                hits = {}
                 stacks = {}
-                for tid, fr in frames.items():
-                    st = traceback.extract_stack(fr)
-                    stacks[str(tid)] = ['%s:%d:%s' % (os.path.basename(f.filename), f.lineno, f.name) for f in st[-8:]]
-                    inner = st[-1]
-                    if os.path.realpath(inner.filename).startswith(os.path.realpath(REPO) + '/j1939'):
-                        where = '%s:%s' % (os.path.basename(inner.filename), inner.name)
+                for sample in range(5):
+                    for tid, fr in sys._current_frames().items():
+                        st = traceback.extract_stack(fr)
+                        stacks[str(tid)] = ['%s:%d:%s' % (os.path.basename(f.filename), f.lineno, f.name) for f in st[-8:]]
+                        for f in reversed(st):
+                            fn = os.path.realpath(f.filename)
+                            if fn.startswith(repo_root):
+                                hits.setdefault(tid, []).append('%s:%s' % (os.path.basename(f.filename), f.name))
+                                break
+                            if fn.startswith(verif_root):
+                                break
+                    eng.real_sleep(0.04)
+                where = None
+                for tid, lst in hits.items():
+                    if len(lst) >= 4:
+                        where = max(set(lst), key=lst.count)
                 rec = dict(id=self.case_id, stalled=True, where=where, stacks=stacks)
                 self.out.write(json.dumps(rec) + '\n')
                 self.out.flush()
